@@ -112,6 +112,43 @@ func plainNames(cs []condCall) []string {
 	return r
 }
 
+// evictCond: source of the condition of the first if statement whose body calls delete(<prefix>…
+func evictCond(f *ex.File, fn, prefix string) string {
+	res := ""
+	ast.Inspect(f.MustFunc(fn).Body, func(n ast.Node) bool {
+		is, ok := n.(*ast.IfStmt)
+		if !ok || res != "" {
+			return res == ""
+		}
+		for _, st := range is.Body.List {
+			if es, ok := st.(*ast.ExprStmt); ok {
+				if c, ok := es.X.(*ast.CallExpr); ok && f.Src(c.Fun) == "delete" && len(c.Args) > 0 && strings.HasPrefix(f.Src(c.Args[0]), prefix) {
+					res = f.Src(is.Cond)
+					return false
+				}
+			}
+		}
+		return true
+	})
+	if res == "" {
+		ex.Die("%s: no eviction condition found in %s", f.Path, fn)
+	}
+	return res
+}
+
+// returnGuards: conditions of the top-level `if cond { return }` statements of a function, in order
+func returnGuards(f *ex.File, fn string) []string {
+	var out []string
+	for _, st := range f.MustFunc(fn).Body.List {
+		if is, ok := st.(*ast.IfStmt); ok && len(is.Body.List) == 1 {
+			if _, ok := is.Body.List[0].(*ast.ReturnStmt); ok {
+				out = append(out, f.Src(is.Cond))
+			}
+		}
+	}
+	return out
+}
+
 func main() {
 	ex.Header("C15")
 	cs := ex.Parse("blockchain/chainstoreffldb.go")
@@ -169,5 +206,13 @@ func main() {
 		}
 	}
 	ex.DefNat("blockCacheInvalidations", n)
+	// the condition under which GetBlock / WriteMessage evict (the if whose body deletes from the cache map)
+	ex.DefStr("blockCacheEvictCond", evictCond(cs, "ChainStoreFFLDB.GetBlock", "c.blocksCache"))
+	ex.DefStr("sendCacheEvictCond", evictCond(pm, "WriteMessage", "blocksCache"))
+	// the early-return guards of the TxCache operations
+	tc := ex.Parse("blockchain/indexers/txcache.go")
+	ex.DefStrList("setTxnGuards", returnGuards(tc, "TxCache.setTxn"))
+	ex.DefStrList("deleteTxnGuards", returnGuards(tc, "TxCache.deleteTxn"))
+	ex.DefStrList("trimGuards", returnGuards(tc, "TxCache.trim"))
 	ex.Footer("C15")
 }
